@@ -3,16 +3,41 @@
 import json, subprocess, os
 
 CLAIMED = {
+ "C01": dict(
+  text="Deductive proof that every public method of array_ and list_ (constructors, Get/Set/Insert/Append/Remove value(s), RemoveAll, GetIndex, Contains*, "
+       "AsArray, GetIterator, GetSize, IsEmpty, Concatenate) refines the abstract ordinal-indexed sequence: the postcondition of each operation is an equation "
+       "over the whole view, every out-of-range case is an exceptional postcondition `panics and view unchanged`, every loop has an inductive invariant and a variant "
+       "(termination), and a frame obligation shows nothing else is written. By induction over histories this covers all finite histories, all sizes and all element types "
+       "(the element type is an uninterpreted sort); operands may alias the receiver.",
+  note="Trusted: go/ssa front end, /verif/engine, z3/cvc5. Structural equality ceq used by GetIndex/Contains* is the collator's CompareValues, taken as an uninterpreted total predicate here "
+       "(its correctness is C08). Allocation never fails; make panics iff size<0 or >2^62; sequences are at most 2^61 long. Sort/Reverse/Shuffle delegations are under C09.",
+  design="DESIGN.md §4.C01"),
+ "C02": dict(
+  text="Deductive proof of the set_ representation invariant (strictly ascending under the collator) across every mutator and constructor, of findIndex (binary search: "
+       "loop invariant, variant, result characterisation), and of whole-view membership postconditions (smem with a Skolem witness) for AddValue(s), RemoveValue(s), Contains*, GetIndex; "
+       "for all sizes, values and any collator that is a total preorder.",
+  note="Hypothesis (the property's own): the collator is a total preorder — for the default collator that is C07's conclusion. Trusted: front end, engine, solvers; the list contracts the set relies on are proved under C01. "
+       "Four sequence-membership lemmas are proved by the solvers as separate obligations and then used as axioms.",
+  design="DESIGN.md §4.C02"),
+ "C13": dict(
+  text="Deductive proof of the stack_ invariant 1 <= capacity and size <= capacity for every constructor and method, of LIFO postconditions over the whole view "
+       "(AddValue = insert at position 0, RemoveTop = remove position 0 and return it), and of the exceptional postconditions (full / empty: panics, view unchanged); all capacities, sizes and histories.",
+  note="Trusted: front end, engine, solvers; class constant defaultCapacity_ >= 1 is a hypothesis (it is set to 16 in the class accessor, which is not under contract). The list operations used are proved under C01.",
+  design="DESIGN.md §4.C13"),
+ "C15": dict(
+  text="Deductive proof that And/Or/Sans/Xor return a fresh, strictly ordered set whose membership is exactly intersection/union/difference/symmetric difference of the operands, "
+       "and that the operands' views are unchanged, without assuming the operands differ (aliasing allowed); all sets, all element types, any total-preorder collator.",
+  note="Hypotheses (stated as preconditions): both operands use the same collator and it is a total preorder. Trusted: front end, engine, solvers.",
+  design="DESIGN.md §4.C15"),
  "C17": dict(
   text="Deductive proof, for all inputs and all iterator states, of every method of iterator_ against the IteratorLike contracts "
        "(slot arithmetic, zero value at the ends, clamping in ToSlot, snapshot immutability by the frame obligation), plus the "
-       "GetIterator contracts of the collections (fresh private copy). Unbounded: the size and the values are symbolic.",
+       "GetIterator contracts of array_, list_, set_, stack_ (fresh private copy: MakeFromArray requires a locally fresh array). Unbounded: the size and the values are symbolic.",
   note="Trusted: go/ssa front end, the VC generator in /verif/engine, z3/cvc5; integers are mathematical with exact wrap-around; "
        "allocation never fails. Snapshot independence of later collection mutations rests on the ownership discipline "
        "(distinct collections never share backing arrays), which the freshness postconditions of the constructors establish.",
   design="DESIGN.md §4.C17"),
 }
-
 NOT_YET = {}
 
 TECH = "contract-based deductive verification: weakest-precondition style VCs generated from go/ssa of /repo, contracts in //go:build verif comment files, discharged by z3 5.1 / z3 4.8 / cvc5"
